@@ -220,6 +220,8 @@ def init_srv(h, extra_space=None):
 def case_term(h, extra_space=None, with_nodes=True):
     evs, outs = [], []
     for e in h.evs:
+        if e["ev"].get("mapns"):
+            continue    # Browse of the map namespace: no state change; compared with Model map_browse by C33
         evs.append(event(e["ev"]))
         outs.append(outcome(e["ev"], e["out"]))
         for i in e.get("internal") or []:
@@ -248,7 +250,8 @@ def standard_proof_steps(ctx, gens, detail):
         proof_ok = False
         detail["translator"] = out[-2000:]
         ctx.log("translator failed: " + out[-500:])
-    r = ctx.props() if ok else None
+    # the correspondence files import Model.ServerDec, which a Props file need not depend on: keep it up to date
+    r = ctx.props(extra_targets=["Model/ServerDec.vo", "Model/ServerSec.vo"]) if ok else None
     if r is not None and not r["ok"]:
         proof_ok = False
         detail["coq"] = r["failed_at"] or r["log"][-1500:]
